@@ -35,6 +35,8 @@ type simDevice struct {
 	maxElection uint64
 	// scripted answers: the next len(script) Sets are answered with these codes (codes.OK = normal processing)
 	script []codes.Code
+	// refuse: a Set that carries one of these "path=value" updates is always answered with the given code
+	refuse map[string]codes.Code
 	// request log of the current step
 	log  []devReq
 	fuse *fuse
@@ -118,6 +120,11 @@ func (d *simDevice) Set(ctx context.Context, r *gnmi.SetRequest) (*gnmi.SetRespo
 	// the request reaching the device is an external effect of the step (even when the device refuses it)
 	if !d.fuse.Effect("device " + d.id + " set") {
 		return nil, status.Error(codes.Internal, "crashed")
+	}
+	for _, u := range req.Updates {
+		if c, ok := d.refuse[u]; ok {
+			return finish(c, fmt.Sprintf("device %s refuses %s", d.id, u))
+		}
 	}
 	if len(d.script) > 0 {
 		c := d.script[0]
